@@ -14,7 +14,8 @@ use grafeo_common::utils::error::{Error, Result};
 use grafeo_core::execution::DataChunk;
 use grafeo_core::execution::operators::JoinType;
 use grafeo_core::execution::operators::{
-    BinaryFilterOp, FilterExpression, FilterOperator, HashAggregateOperator, JoinCondition,
+    BinaryFilterOp, DistinctOperator, FilterExpression, FilterOperator, HashAggregateOperator,
+    JoinCondition,
     LimitOperator, NestedLoopJoinOperator, Operator, OperatorError, Predicate, ProjectExpr,
     ProjectOperator, SimpleAggregateOperator, SkipOperator, SortOperator, UnaryFilterOp,
 };
@@ -98,7 +99,12 @@ impl RdfPlanner {
             LogicalOperator::LeftJoin(join) => self.plan_left_join(join),
             LogicalOperator::AntiJoin(join) => self.plan_anti_join(join),
             LogicalOperator::Union(union) => self.plan_union(union),
-            LogicalOperator::Distinct(distinct) => self.plan_operator(&distinct.input),
+            LogicalOperator::Distinct(distinct) => {
+                let (input_op, columns) = self.plan_operator(&distinct.input)?;
+                let output_schema = derive_rdf_schema(&columns);
+                let operator = Box::new(DistinctOperator::new(input_op, output_schema));
+                Ok((operator, columns))
+            }
             LogicalOperator::InsertTriple(insert) => self.plan_insert_triple(insert),
             LogicalOperator::DeleteTriple(delete) => self.plan_delete_triple(delete),
             LogicalOperator::Modify(modify) => self.plan_modify(modify),
